@@ -224,7 +224,7 @@ KEEP = [
 
 
 # obligations of a kept rule that say nothing about the detections' form (the published scores)
-DROP = [("C02.f BACKTRACK", "prefix-scores")]
+DROP = [("C02.f BACKTRACK", "prefix-scores"), ("C02.f BACKTRACK", "published-scores")]
 
 
 def _wanted(o):
@@ -304,6 +304,12 @@ def mw_threshold_nonnegative(ctx):
                 ok = c >= 0
             elif a is not None and a.kind == "max":
                 ok = any(lift(x).as_const() is not None and lift(x).as_const() >= 0 for x in a.args)
+        if not ok and isinstance(v, Num) and v.nf is not None and any(a_.kind in ("max", "min", "abs") or (a_.kind == "app" and a_.args and str(a_.args[0]) in ("clip", "maximum", "where", "opq")) for a_ in atoms_of(v.nf).values()):
+            ctx.undecided(rule, "MovingWindow|threshold-nonnegative", f.loc(), "the default threshold goes through a clamp of a form that is not recognised: whether it is non-negative is not decided", found=found)
+            continue
+        if not ok and not isinstance(v, Num):
+            ctx.undecided(rule, "MovingWindow|threshold-nonnegative", f.loc(), "the default threshold is the result of a call without a model", found=found)
+            continue
         ctx.check(ok, rule, "MovingWindow|threshold-nonnegative", f.loc(), "the default threshold is non-negative by construction (the scores are 0 in the unscored margins: a negative threshold reports positions outside [bandwidth, n - bandwidth])", found=found, expected="max(<formula>, 0)")
 
 
